@@ -310,15 +310,15 @@ static void fork_edit(gctx_t *g, int kind, int off, int val)
  * the byte level, Finished is recomputed over the edited transcript and the flight is re-sealed: the edits reach the parsers
  * of EncryptedExtensions / CertificateRequest / Certificate / CertificateVerify / Finished behind the record protection,
  * which ciphertext edits (rejected by the AEAD) never do. */
-enum { T_BYTE = 0, T_W2, T_W3, T_TRUNC_FIX, T_TRUNC_NOFIX, T_EXTEND, T_NONE, T_NK };
-static const char *tname[] = { "msg-byte", "msg-window16", "msg-window24", "msg-truncate-header-fixed", "msg-truncate-header-kept", "msg-extend", "msg-none" };
+enum { T_BYTE = 0, T_W2, T_W3, T_TRUNC_FIX, T_TRUNC_NOFIX, T_EXTEND, T_NONE, T_EMPTYTYPE, T_KEYUPDATE, T_RETYPE, T_NK };
+static const char *tname[] = { "msg-byte", "msg-window16", "msg-window24", "msg-truncate-header-fixed", "msg-truncate-header-kept", "msg-extend", "msg-none", "empty-message-of-type", "key-update-with-body", "msg-retyped" };
 typedef struct { a_ctx_t *g; int mi, kind, off, val; } tcase_t;
 
 static void t_run_case(void *ctx, mx_result_t *r)
 {
     tcase_t *c = ctx;
     a_ctx_t *g = c->g;
-    const a_cfg_t *ac = &acfgs[g->ci];
+    const char *acname = g->ci >= 100 ? "tls13-rsa-tickets-post-handshake" : acfgs[g->ci].name;
     static unsigned char em[24100], rec[24200], th[64], vd[64], fin[4 + 64];
     tk_msg_t out[16];
     int i, el, v = g->victim, s;
@@ -353,6 +353,18 @@ static void t_run_case(void *ctx, mx_result_t *r)
         break;
     case T_TRUNC_NOFIX:
         el = 4 + c->off;
+        break;
+    case T_EMPTYTYPE:
+        em[0] = (unsigned char) c->val; em[1] = em[2] = em[3] = 0;
+        el = 4;
+        break;
+    case T_KEYUPDATE:
+        em[0] = 24; em[1] = em[2] = 0; em[3] = (unsigned char) c->off;
+        memset(em + 4, c->val, (size_t) c->off);
+        el = 4 + c->off;
+        break;
+    case T_RETYPE:
+        em[0] = (unsigned char) c->val;
         break;
     case T_EXTEND:
         memset(em + el, 0x41, (size_t) c->off);
@@ -439,7 +451,7 @@ static void t_run_case(void *ctx, mx_result_t *r)
         r->violation = 1;
         snprintf(r->key, sizeof(r->key), "leak-after-delete|tls13-peer|%s|alloc-in=%s", v ? "server" : "client", site);
         snprintf(r->what, sizeof(r->what), "%s: %ld tracked allocations still live after teardown, first allocated in %s (malicious peer edit %s of message %d type %d off %d val %d fed to %s) [%s]",
-            ac->name, live, site, tname[c->kind], c->mi, g->m[c->mi].type, c->off, c->val, v ? "server" : "client", r->desc);
+            acname, live, site, tname[c->kind], c->mi, g->m[c->mi].type, c->off, c->val, v ? "server" : "client", r->desc);
     }
 }
 
@@ -454,9 +466,111 @@ static void t_fork(a_ctx_t *g, int mi, int kind, int off, int val)
 {
     char desc[220];
     tcase_t c = { g, mi, kind, off, val };
-    snprintf(desc, sizeof(desc), "T;c=%d;v=%d;m=%d;k=%d;o=%d;x=%d (%s to=%s message %d type %d %s)", g->ci, g->victim, mi, kind, off, val, acfgs[g->ci].name,
+    snprintf(desc, sizeof(desc), "T;c=%d;v=%d;m=%d;k=%d;o=%d;x=%d (%s to=%s message %d type %d %s)", g->ci, g->victim, mi, kind, off, val, g->ci >= 100 ? "tls13-rsa-tickets-post-handshake" : acfgs[g->ci].name,
         g->victim ? "server" : "client", mi, g->m[mi].type, tname[kind]);
     mx_fork_case(desc, t_run_case, &c);
+}
+
+/* part U: post-handshake messages of a malicious TLS 1.3 server (NewSessionTicket, KeyUpdate, anything else) under the
+ * application traffic keys: the genuine NewSessionTicket records are opened with "s ap traffic", edited and re-sealed */
+static int u_setup(a_ctx_t *g)
+{
+    wcfg_t c;
+    unsigned char sec[64], pt[20000];
+    int turn = 0, i, n, sl, it, k, guard = 0;
+    env_live_reset();
+    env_track(1);
+    memset(&c, 0, sizeof(c));
+    c.ver = V_TLS13; c.kx = KX_13_RSA; c.tickets = 1;
+    g->hashlen = 32;
+    g->victim = 0;
+    if (world_init(&g->w, &c) < 0)
+    {
+        return -1;
+    }
+    buf_init(&g->tr);
+    world_collect(&g->w, 0);
+    while (!world_is_complete(&g->w, 1) && guard++ < 50 && world_step(&g->w, &turn))
+    {
+    }
+    if (!world_is_complete(&g->w, 1) || !world_is_complete(&g->w, 0))
+    {
+        return -2;
+    }
+    sl = tk_keylog_find("s ap traffic", sec);
+    if (sl != 32 || tk13_keys_from_secret(&g->fk, TLS_AES_128_GCM_SHA256, sec, 32) < 0)
+    {
+        return -3;
+    }
+    n = g->w.wire[1].n;
+    g->hl = 0;
+    g->nfirst = 0;
+    for (i = 0; i < n; i++)
+    {
+        rec_t *r = &g->w.wire[1].r[(g->w.wire[1].head + i) % W_MAXREC];
+        k = tk13_open(&g->fk, r->p, r->len, pt, &it);
+        if (k < 0 || it != 22 || g->hl + k > (int) sizeof(g->hs))
+        {
+            return -4;
+        }
+        memcpy(g->hs + g->hl, pt, (size_t) k);
+        g->hl += k;
+    }
+    g->nm = tk_split_msgs(g->hs, g->hl, g->m, 16);
+    if (g->nm < 1)
+    {
+        return -5;
+    }
+    world_wire_clear(&g->w, 1);
+    return 0;
+}
+
+static void t_enumerate(a_ctx_t *g, int mi);
+
+static void u_run_group(int mi)
+{
+    static a_ctx_t g;
+    int rc, t, b, l;
+    memset(&g, 0, sizeof(g));
+    g.ci = 100;
+    if ((rc = u_setup(&g)) != 0)
+    {
+        mx_result_t r;
+        memset(&r, 0, sizeof(r));
+        r.violation = 2;
+        snprintf(r.key, sizeof(r.key), "toolkit-setup-failed|post-handshake|rc=%d", rc);
+        snprintf(r.what, sizeof(r.what), "toolkit could not open the NewSessionTicket flight (rc %d)", rc);
+        snprintf(r.desc, sizeof(r.desc), "T;c=100;v=0");
+        mx_record(&r);
+        return;
+    }
+    if (mi < g.nm)
+    {
+        t_enumerate(&g, mi);
+        if (mi == 0)
+        {
+            /* any handshake message type, empty, after the handshake; KeyUpdate with every short body; the ticket body under every type */
+            for (t = 0; t < 256 && !mx_deadline_hit(); t++)
+            {
+                t_fork(&g, 0, T_EMPTYTYPE, 0, t);
+                if (thorough || t < 32 || t == 254 || t == 255)
+                {
+                    t_fork(&g, 0, T_RETYPE, 0, t);
+                }
+            }
+            for (l = 0; l <= 3; l++)
+            {
+                for (b = 0; b < 4; b++)
+                {
+                    static const int bv[4] = { 0, 1, 2, 255 };
+                    t_fork(&g, 0, T_KEYUPDATE, l, bv[b]);
+                }
+            }
+        }
+    }
+    world_free(&g.w);
+    buf_free(&g.tr);
+    env_track(0);
 }
 
 static void t_run_group(int aci, int victim, int mi)
@@ -483,6 +597,16 @@ static void t_run_group(int aci, int victim, int mi)
         env_track(0);
         return;
     }
+    t_enumerate(&g, mi);
+    world_free(&g.w);
+    buf_free(&g.tr);
+    env_track(0);
+}
+
+static void t_enumerate(a_ctx_t *gp, int mi)
+{
+    int o, k, L;
+#define g (*gp)
     L = g.m[mi].len;
     if (mi == 0)
     {
@@ -518,9 +642,7 @@ static void t_run_group(int aci, int victim, int mi)
     t_fork(&g, mi, T_EXTEND, 1, 0);
     t_fork(&g, mi, T_EXTEND, 2, 0);
     t_fork(&g, mi, T_EXTEND, 16, 0);
-    world_free(&g.w);
-    buf_free(&g.tr);
-    env_track(0);
+#undef g
 }
 
 static void run_group(long gi, void *unused)
@@ -531,7 +653,14 @@ static void run_group(long gi, void *unused)
     if (groups[gi].ci >= 1000)
     {
         int x = groups[gi].ci - 1000;
-        t_run_group(x / 2, x % 2, groups[gi].p);
+        if (x >= 200)
+        {
+            u_run_group(groups[gi].p);
+        }
+        else
+        {
+            t_run_group(x / 2, x % 2, groups[gi].p);
+        }
         return;
     }
     for (v = 0; v < 2; v++)
@@ -729,13 +858,13 @@ int main(int argc, char **argv)
             static a_ctx_t tg;
             tcase_t tc;
             int aci, mi2;
-            if (sscanf(replay, "T;c=%d;v=%d;m=%d;k=%d;o=%d;x=%d", &aci, &v, &mi2, &k, &o, &x) != 6 || aci >= NACFG)
+            if (sscanf(replay, "T;c=%d;v=%d;m=%d;k=%d;o=%d;x=%d", &aci, &v, &mi2, &k, &o, &x) != 6 || (aci >= NACFG && aci != 100))
             {
                 return 2;
             }
             memset(&tg, 0, sizeof(tg));
             tg.ci = aci; tg.victim = v;
-            if (t_setup(&tg) != 0 || mi2 >= tg.nm)
+            if ((aci >= 100 ? u_setup(&tg) : t_setup(&tg)) != 0 || mi2 >= tg.nm)
             {
                 fprintf(stderr, "cannot set up the flight\n");
                 return 2;
@@ -769,21 +898,7 @@ int main(int argc, char **argv)
         return 0;
     }
     mx_init(&cfg);
-    for (i = 0; i < ncfg && !getenv("MXV_C08_ONLY_PEER13"); i++)
-    {
-        nsteps[i] = world_count_steps(&cfgs[i]);
-        if (nsteps[i] < 0)
-        {
-            printf("INTERNAL property=C08 key=honest-handshake-failed what=cfg %d\n", i);
-            return 2;
-        }
-        for (p = 0; p <= nsteps[i] + 1; p++)
-        {
-            groups[ngroups].ci = i;
-            groups[ngroups].p = p;
-            ngroups++;
-        }
-    }
+    /* (registered first: in the deadline-capped thorough tier these groups must not be the ones that are cut off) */
     /* part T: malicious TLS 1.3 peer, one group per (mode, victim, message index) */
     {
         int aci, vv, mi2;
@@ -802,6 +917,27 @@ int main(int argc, char **argv)
                     ngroups++;
                 }
             }
+        }
+    }
+    for (i = 0; i < 3; i++)
+    {
+        groups[ngroups].ci = 1000 + 200;   /* part U: post-handshake messages, per NewSessionTicket message */
+        groups[ngroups].p = i;
+        ngroups++;
+    }
+    for (i = 0; i < ncfg && !getenv("MXV_C08_ONLY_PEER13"); i++)
+    {
+        nsteps[i] = world_count_steps(&cfgs[i]);
+        if (nsteps[i] < 0)
+        {
+            printf("INTERNAL property=C08 key=honest-handshake-failed what=cfg %d\n", i);
+            return 2;
+        }
+        for (p = 0; p <= nsteps[i] + 1; p++)
+        {
+            groups[ngroups].ci = i;
+            groups[ngroups].p = p;
+            ngroups++;
         }
     }
     mx_parallel(ngroups, run_group, NULL);
